@@ -51,6 +51,11 @@ var fixedCases = []Case{
 		"(in-package 'lib)\n(export 'f)\n(defun f (a) (+ a 1))\n",
 		"(use-package 'lib)\n(f 1)\n",
 		"(f 2)\n"),
+	// 12. rename-exports: two used packages export the same name (the later use-package wins at run time)
+	one("mismatch:misbound-ref/imported-conflict", true, true, nil, "",
+		"(in-package 'p1)\n(export 'f)\n(defun f () 1)\n",
+		"(in-package 'p2)\n(export 'f)\n(defun f () 2)\n",
+		"(in-package 'app)\n(use-package 'p1)\n(use-package 'p2)\n(f)\n"),
 }
 
 func enumFixed(shard, nshards int, emit func(Case) bool) {
